@@ -716,32 +716,53 @@ func (g *Graph) DisjunctGuard(loc Loc, guard Guard) (bool, []CondAtom) {
 			continue
 		}
 		for edge, val := range []bool{true, false} {
-			ds := splitDisj(br.Cond, val)
-			if len(ds) < 2 {
-				continue
-			}
-			hit := -1
-			for i, d := range ds {
-				b2 := br
-				b2.Cond = d.E
-				p := guard(g.U, b2)
-				if (p > 0 && d.Val) || (p < 0 && !d.Val) {
-					hit = i
+			for _, ds := range disjGroups(br.Cond, val) {
+				if len(ds) < 2 {
+					continue
 				}
-			}
-			if hit < 0 || !g.EdgeDominates(br.B, edge, loc) {
-				continue
-			}
-			var others []CondAtom
-			for i, d := range ds {
-				if i != hit {
-					others = append(others, d)
+				hit := -1
+				for i, d := range ds {
+					b2 := br
+					b2.Cond = d.E
+					p := guard(g.U, b2)
+					if (p > 0 && d.Val) || (p < 0 && !d.Val) {
+						hit = i
+					}
 				}
+				if hit < 0 || !g.EdgeDominates(br.B, edge, loc) {
+					continue
+				}
+				var others []CondAtom
+				for i, d := range ds {
+					if i != hit {
+						others = append(others, d)
+					}
+				}
+				return true, others
 			}
-			return true, others
 		}
 	}
 	return false, nil
+}
+
+// disjGroups lists the proper disjunctions established when e evaluates to
+// val: `p && (a || b)` true establishes p and the disjunction {a, b}.
+func disjGroups(e ast.Expr, val bool) [][]CondAtom {
+	e = ast.Unparen(e)
+	switch x := e.(type) {
+	case *ast.UnaryExpr:
+		if x.Op == token.NOT {
+			return disjGroups(x.X, !val)
+		}
+	case *ast.BinaryExpr:
+		if (x.Op == token.LAND && val) || (x.Op == token.LOR && !val) {
+			return append(disjGroups(x.X, val), disjGroups(x.Y, val)...)
+		}
+		if (x.Op == token.LOR && val) || (x.Op == token.LAND && !val) {
+			return [][]CondAtom{splitDisj(e, val)}
+		}
+	}
+	return nil
 }
 
 // Establishes reports whether guard recognises the atom (with its value) as the fact it stands for.
